@@ -1,6 +1,6 @@
 From Coq Require Extraction ExtrOcamlBasic.
-From PV Require Import Model.C07Run.
+From PV Require Import Model.C07All.
 Extraction Language OCaml.
-Definition run := run_c07.
-Definition oracle := oracle_c07.
+Definition run := run_c07_all.
+Definition oracle := oracle_c07_all.
 Extraction "model.ml" run oracle.
